@@ -195,6 +195,13 @@ def check_width_predicate(ctx, F, tag, prefix, only=None):
         b = F.body(fn)
         aggs = [(bi, st) for bi, si, st in b.stmts() if st["s"] == "assign" and st["rv"]["r"] == "agg" and st["rv"].get("def") == adt]
         ok = bool(aggs)
+        if not aggs:
+            # no construction of its own: the value comes from another validating constructor called with this function's width
+            # (`IntVector::with_capacity(len, width)?` followed by pushes), whose own predicate is one of the obligations here
+            from guards import VALIDATING_CTORS
+            deleg = [t for _, t in b.calls() if callee_name(t) in VALIDATING_CTORS and callee_name(t) != fn and
+                     core(b.term_of_operand(t["args"][VALIDATING_CTORS[callee_name(t)]]))[:2] == ("param", wp)]
+            ok = bool(deleg)
         for bi, st in aggs:
             fs = facts_at(b, bi)
             from guards import fact_nonzero, fact_at_most
@@ -379,6 +386,21 @@ def check_returned_arguments(ctx, F, tag, rule="C09.R7.returned-argument-bounded
 def check_config_tail(ctx, F, tag):
     check_select_clamps(ctx, F, tag)
     check_returned_arguments(ctx, F, tag)
+    # a multiset can hold more values than its universe has positions: the provided `count_zeros() = len - count_ones` underflows
+    # there, and every select_zero-family clamp of the sparse vector is built on it.  The sparse vector overrides it with a
+    # subtraction guarded by count_ones >= len.
+    cz = "<sparse_vector::SparseVector as ops::BitVec<'a>>::count_zeros"
+    if not F.has_body(cz):
+        ctx.ob("C09.R8.sparse-count-zeros-clamped", cz + tag, "src/sparse_vector.rs", False, "guard-dominance",
+               "SparseVector does not override count_zeros(): the provided len() - count_ones() underflows for an overfull multiset")
+    else:
+        zb = F.body(cz)
+        subs = [bi for bi in sorted(zb.reachable()) if zb.blocks[bi]["term"]["t"] == "assert" and zb.blocks[bi]["term"]["kind"].startswith("Overflow(Sub")]
+        subs += [bi for bi, si, st in zb.stmts() if st["s"] == "assign" and st["rv"]["r"] == "bin" and st["rv"]["op"] == "Sub"]
+        sat = any(callee_name(t).split("::")[-1] in ("saturating_sub", "checked_sub") for _, t in zb.calls())
+        guarded = all(any(f[0] == "cmp" and f[1] in ("Lt", "Gt", "Le", "Ge") for f in facts_at(zb, bi)) for bi in subs)
+        ctx.ob("C09.R8.sparse-count-zeros-clamped", cz + tag, loc(zb.raw["span"]), (bool(subs) and guarded) or sat, "guard-dominance",
+               "count_zeros() subtracts behind a comparison of count_ones() with len() (or saturates): %s" % ((bool(subs) and guarded) or sat), nontrivial=False)
 
     # ---------------- R3 informational: sibling clamps
     for tr, methods in TRAIT_METHODS.items():
